@@ -49,6 +49,7 @@ REQ_QUICK = [
     _req(EX, 80, "/"),
     _req(EX, 80, "/foo"),
     _req(EX, 80, "/foobar"),
+    _req(EX, 80, "/foobar/x"),
     _req(EX, 80, "/foo/bar"),
     _req(EX, 8080, "/foo"),
     _req(SUB, 80, "/foo"),
@@ -174,7 +175,7 @@ class Check(core.PropertyCheck):
         s, r = self._tables(tier)
         return {"SetOps": tuple(tla_set_op(o) for o in s), "ReqOps": tuple(tla_req_op(o) for o in r),
                 "Filters": frozenset({"all", "get"}), "MaxOps": 3 if tier == "quick" else 4,
-                "MaxSets": 2 if tier == "quick" else 3, "DomainRule": "suffix_and_rfind", "PathRule": "rfc"}
+                "MaxSets": 2 if tier == "quick" else 3, "DomainRule": "dotsuffix_and_rfind", "PathRule": "rfc"}
 
     def model_runs(self, ctx):
         # generous timeouts: the sandbox is shared, TLC slows down by an order of magnitude under load
@@ -224,7 +225,8 @@ class Check(core.PropertyCheck):
         hosts = rng.sample(good, 2) + rng.sample(odd, 2)
         doms = [None, rng.choice([stem, "." + stem]), rng.choice(["a." + stem, ".a." + stem, "." + stem.upper()]),
                 rng.choice([OTHER, "." + OTHER, ".com", "com", ".2.3", "2.3", IP, "evil.org", ".evil.org", stem + ".evil.org"])]
-        paths = ["/", "/foo", "/foo/", "/foo/bar", "/foobar", "/fo", "/foo/barbaz", "/Foo", "/foo.html", "/bar"]
+        paths = ["/", "/foo", "/foo/", "/foo/bar", "/foobar", "/fo", "/foo/barbaz", "/Foo", "/foo.html", "/bar", "/foobar/x",
+                 "/foo/bar/", "/foo/barbaz/y"]
         cpaths = [None, rng.choice(["/", "/foo", "/foo/"]), rng.choice(["/foo/bar", "/bar", "foo", "/foo"])]
         ports = rng.sample([80, 8080, 443], 2)
         names = ["a", "sid"]
